@@ -272,7 +272,7 @@ func (t *simTB) Failed() bool      { return t.failed }
 func RunShard(p Property, env *Env) {
 	start := time.Now()
 	reported := map[string]bool{} // signatures already minimised and recorded by this shard
-	for round := 0; round < 6; round++ {
+	for round := 0; round < maxRounds(env); round++ {
 		target := "" // signature being minimised
 		var last *Replay
 		prop := func(t *rapid.T) {
@@ -593,4 +593,11 @@ func (e *Env) sampleChecks(w *World, args []string, c *Case) {
 	if len(om) > 0 {
 		e.Stats.Counters["selftest_output_mismatch"] += len(om)
 	}
+}
+
+func maxRounds(env *Env) int {
+	if env.Thorough() {
+		return 6
+	}
+	return 3
 }
